@@ -85,6 +85,9 @@ def aid(c: int) -> int:
 
 
 def npoints_of(p: int, big: bool) -> int:
+    # (Codec.tla PointCounts "one": in the codec family payload 2 may be a trajectory of exactly ONE point)
+    if _idr.get('onepoint') and int(p) == 2 and not big:
+        return 1
     return (4000 if big else 6) + int(p)
 
 
@@ -113,8 +116,8 @@ def make_payload(p: int, fid: int, big: bool = False, missing: str | None = None
         # payload 2 carries it in that form (also in the files of the start states)
         t.total_fuel_mass = float('nan') if (_idr.get('nan') and p == 2) else p * 100.0 + 0.25
     t.n_climb = 1
-    t.n_cruise = n - 2
-    t.n_descent = 1
+    t.n_cruise = max(n - 2, 0)
+    t.n_descent = 1 if n >= 2 else 0
     if fid:
         t.flight_id = cid(fid)   # (an abstract 0 means: no identifier)
     if extras:
